@@ -51,13 +51,24 @@ if kind == 'c11':
             for q in (f"$[{t}]", f"$[::{t}]", f"$[{t}:]", f"$[:{t}]", f"$[{t}::-1]", f"$[:{t}:-1]", f"$[1::{t}]", f"$[?@[{t}]==0]"):
                 cases.append((q, arr if not q.startswith('$[?') else [arr]))
     for q, sc in [("$[1:2]", {"a": 1}), ("$[0]", {"0": 1}), ("$[::]", "abc"), ("$[0]", 5), ("$..[1::-1]", [[1, 2, 3], [4, [5, 6]]])]: cases.append((q, sc))
+    # the same slices over arrays whose elements are not distinct: a position must never be recovered from a value
+    def variants(arr):
+        if not isinstance(arr, list) or not arr or not all(isinstance(x, int) for x in arr): return []
+        return [[7] * len(arr), ['a', 'b'] * (len(arr) // 2) + ['a'] * (len(arr) % 2), [x // 2 for x in arr]]
+    extra = []
+    for q, d in cases:
+        if q.startswith('$[') and ':' in q and not q.startswith('$[?') and rnd.random() < 0.5:
+            for v in variants(d): extra.append((q, v))
+    cases += extra
     if N and N < len(cases): cases = rnd.sample(cases, N)
     for q, d in cases: emit(q, d)
 elif kind == 'c04':
     U = [None, True, False, 0, 0.0, -0.0, 1, -1, 2, 1.0, 0.5, -0.5, 2.0**-60, 100, 100.0, 1e19, 9.5e18, -1e19, 9007199254740992, 4503599627370497, '', 'a', 'b', 'ab', 'A', 'é', '𝄞', '￿', '1',
          [], [1], [1.0], [1, 2], [[1]], [[1.0]], {}, {"a": 1}, {"a": 1.0}, {"a": 1, "b": 2}, {"b": 2, "a": 1}, {"a": [1]}, {"a": [1.0]}]
     OPS = ['==', '!=', '<', '<=', '>', '>=']
-    LITS = ['null', 'true', 'false', '0', '-0', '0.0', '-0.0', '1', '-1', '2', '1.0', '0.5', '-0.5', '1e2', '100', '100.0', '1e19', '-1e19', '9.5e18', '1.0e19', '9007199254740992.0', "''", "'a'", '"a"', "'b'", "'ab'", "'A'", "'é'", "'1'"]
+    LITS = ['null', 'true', 'false', '0', '-0', '0.0', '-0.0', '1', '-1', '2', '1.0', '0.5', '-0.5', '1e2', '100', '100.0', '1e19', '-1e19', '9.5e18', '1.0e19', '9007199254740992.0',
+            # at and beyond the largest double (a literal that would round to infinity is not a number the crate can hold: rejected, oracle abstains)
+            '1.7976931348623157e308', '1e308', '1e400', '-1e400', '1E999', '2e308', '1.7976931348623159e308', '0.1e310', "''", "'a'", '"a"', "'b'", "'ab'", "'A'", "'é'", "'1'"]
     cases = []
     for x in U:
         for y in U:
@@ -88,7 +99,7 @@ elif kind == 'c04':
     if N and N < len(cases): cases = rnd.sample(cases, N)
     for q, d in cases: emit(q, d)
 elif kind == 'c05':
-    ATOMS = ['@.a', '@.b', '@[0]', '@.*', '$.k', '@.a==1', '@.b!=2', '@.a<@.b', '1==1', '1==2', '@[?@.a]', '@..a', 'length(@.a)==0', 'count(@.*)>1', "in(@.a,$.k)",
+    ATOMS = ['@.a', '@.b', '@[0]', '@.*', '$.k', '$.a', '$.k[?@.a]', '@.a==$.a', '$.items', '$.k[0]==1', 'count($.k[*])>0', '@.a==1', '@.b!=2', '@.a<@.b', '1==1', '1==2', '@[?@.a]', '@..a', 'length(@.a)==0', 'count(@.*)>1', "in(@.a,$.k)",
              '@[?@.a].b', '@[?@.a][0]', '@[?@.a]..b', '@[?@.b].a[?@>1]', '@.*[?@.a].b', '@[?@.a,?@.b].b', '@[1:][?@.a].b', '@..[?@.a].b', '@[?@[?@.a].b]', 'count(@[?@.a])==2', 'value(@[?@.b].a)==1',
              # a `!` that belongs to a filter nested inside the tested query, not to the test itself
              '@[?!@.a]', '@.a[?!@.b]', '@[?!@.a].b', '@[?!(@.a)]', '@[?!@.a&&@.b]', '@[?@.a||!@.b]', 'count(@[?!@.a])==1', '@.*[?!@.b]', '@..[?!@.a]', '@[?@[?!@.a]]', '$.k[?!@.a]', '@[?@.a!=1]']
@@ -103,7 +114,12 @@ elif kind == 'c05':
         f = formula(0)
         if f.startswith('!') and ('==' in f.split('&&')[0].split('||')[0] or '<' in f.split('&&')[0].split('||')[0] or '>' in f.split('&&')[0].split('||')[0] or '!=' in f.split('&&')[0].split('||')[0]) and not f.startswith('!('):
             f = f[1:]   # `!` cannot prefix a comparison
-        doc = {"k": rnd.choice([[1], 1, []]), "items": rnd.sample(DOCS, 6)} if rnd.random() < 0.5 else rnd.sample(DOCS, 6)
+        r0 = rnd.random()
+        if r0 < 0.35: doc = {"k": rnd.choice([[1], 1, []]), "items": rnd.sample(DOCS, 6)}
+        elif r0 < 0.6:
+            # the filter runs over the MEMBERS of an object (other code path than over array elements); `$` must still be the document root
+            doc = {"k": rnd.choice([[1], 1, [], [{"a": 1}]]), "a": rnd.choice([1, None]), "items": {("m%d" % i): v for i, v in enumerate(rnd.sample(DOCS, 6))}}
+        else: doc = rnd.sample(DOCS, 6)
         q = ("$.items[?" + f + "]") if isinstance(doc, dict) else ("$[?" + f + "]")
         emit(q, doc)
 elif kind == 'c14':
@@ -122,9 +138,13 @@ elif kind == 'c14':
         form = rnd.choice(["{n}{f}(@, $.list)", "{n}{f}(@,$.list)", "{n}{f}(@, $.missing)", "{n}{f}(@.k, $.list)", "{n}{f}(@[0], $.list)", "{n}{f}(1, $.list)", "{n}{f}('a', $.list)", "{n}{f}(null, $.list)", "{n}{f}(true, $.list)", "{n}{f}('1', $.list)", "{n}{f}(1.0, $.list)", "{n}{f}(@, $.elems[0])", "{n}{f}($.list, @)", "{n}{f}(@[0], @)", "{n}{f}(@, $.list) && {f}(@, $.list)", "{n}{f}(@)", "{n}{f}(@, $.list, $.list)"])
         emit("$.elems[?" + form.format(n=neg, f=fn) + "]", doc)
 elif kind == 'c10':
-    SUBJ = ['', 'a', 'ab', 'abc', 'b', 'xaby', 'a b', 'é', '𝄞', 'a𝄞', 'a\nb', '1', 'A']
+    SUBJ = ['', 'a', 'ab', 'abc', 'b', 'xaby', 'a b', 'é', '𝄞', 'a𝄞', 'a\nb', '1', 'A', 'a\\b', '\\', '\\\\', 'a\\xb', '\\d', 'xb']
     ARGS = SUBJ + [0, 1, 1.5, None, True, [], [1], [1, 2], {}, {"a": 1}, {"a": 1, "b": 2}, ["ab"]]
-    PATS = ['a', 'ab', 'a|b', 'a.b', '.', '.*', 'a*', '(a|b)+', '[a-c]+', '[^a]', '^a', 'a$', '^ab$', 'é', '𝄞', '', '(', 'a)', '+', 'a{2}', '\\\\.', 'A']
+    PATS = ['a', 'ab', 'a|b', 'a.b', '.', '.*', 'a*', '(a|b)+', '[a-c]+', '[^a]', '^a', 'a$', '^ab$', 'é', '𝄞', '', '(', 'a)', '+', 'a{2}', '\\\\.', 'A',
+            # not regular expressions, although the anchoring wrapper `^(?:…)$` of match() would turn them into one
+            'a)|(b', 'a)(b', ')|(', 'a)b(c', 'x)|(?:a',
+            # an escaped backslash in a pattern that comes from the document (4 characters a \\ \\ b: matches the 3 characters a \\ b)
+            'a\\\\b', '\\\\', '\\\\\\\\', 'a\\\\.b', '\\\\d']
     for _ in range(N):
         r = rnd.random()
         items = [rnd.choice(ARGS) for _ in range(rnd.choice([2, 3, 5]))]
